@@ -40,22 +40,29 @@ const (
 	kCall = iota
 	kAsync
 	kPush
+	kRawPush // PreSession.RawPush: goes through the global message pool, no plugins
 )
 
-var kindName = [...]string{"call", "async", "push"}
+var kindName = [...]string{"call", "async", "push", "rawpush"}
+
+func isPush(kind int) bool { return kind == kPush || kind == kRawPush }
+
+const refuseCode = 403
 
 type kv struct{ k, v []byte }
 
 // opRec is one operation issued by an endpoint.
 type opRec struct {
-	tag   string
-	kind  int
-	path  string // service method the operation was sent to (function or struct-controller route)
-	idx   int    // unique within (epoch, endpoint); calls only
-	args  []byte // the args region
-	meta  []kv   // all meta pairs sent, "tag" first
-	sent  []byte // the []byte handed to the library (bytes body kind), checked afterwards
-	epoch int
+	tag    string
+	kind   int
+	path   string // service method the operation was sent to (function or struct-controller route)
+	refuse bool   // the sender asks the handler to refuse this call (metadata refuse=1)
+	msg    string // status message of a non-OK completion
+	idx    int    // unique within (epoch, endpoint); calls only
+	args   []byte // the args region
+	meta   []kv   // all meta pairs sent, "tag" first
+	sent   []byte // the []byte handed to the library (bytes body kind), checked afterwards
+	epoch  int
 
 	// filled at completion (calls)
 	seq      int32
@@ -154,6 +161,7 @@ type world struct {
 	kind  string // FrameLenPrefix kind
 
 	srv, cli             erpc.Peer
+	pf                   []erpc.ProtoFunc
 	pairs                [2]*Pair
 	eps                  [2][2]*endpoint
 	bySess               map[erpc.CtxSession]*endpoint
@@ -170,16 +178,17 @@ type world struct {
 	handlersIn  int64
 	handlersOut int64
 
-	evals     int64
-	stalls    int64
-	batches   int64
-	epochsRun int
-	caseBytes int
-	distinct  map[string]struct{}
-	dmu       sync.Mutex
-	samples   []string
-	failN     map[string]int
-	jsonCodec codec.Codec
+	evals      int64
+	lateWrites int64
+	stalls     int64
+	batches    int64
+	epochsRun  int
+	caseBytes  int
+	distinct   map[string]struct{}
+	dmu        sync.Mutex
+	samples    []string
+	failN      map[string]int
+	jsonCodec  codec.Codec
 }
 
 var curWorld atomic.Value // *world
@@ -207,8 +216,10 @@ func newWorld(cfg *RunCfg, st *Stats, cw *CaseWriter, gz *GzipRecorder, ci int, 
 	case "pb":
 		pf = []erpc.ProtoFunc{pbproto.NewPbProtoFunc()}
 	}
-	w.srv = erpc.NewPeer(erpc.PeerConfig{DefaultBodyCodec: "plain"}, viewPlugin{})
-	w.cli = erpc.NewPeer(erpc.PeerConfig{DefaultBodyCodec: "plain"}, viewPlugin{})
+	hsWorld.Store(w) // the handshake plugin runs while the sessions are being built
+	w.pf = pf
+	w.srv = erpc.NewPeer(erpc.PeerConfig{DefaultBodyCodec: "plain"}, viewPlugin{}, hsPlugin{})
+	w.cli = erpc.NewPeer(erpc.PeerConfig{DefaultBodyCodec: "plain"}, viewPlugin{}, hsPlugin{})
 	// every handler exists twice: as a function (RouteCallFunc / RoutePushFunc) and as a method
 	// of a struct controller that embeds the context (RouteCall / RoutePush); the controller
 	// object is pooled per method by the router
@@ -241,7 +252,7 @@ func newWorld(cfg *RunCfg, st *Stats, cw *CaseWriter, gz *GzipRecorder, ci int, 
 	}
 	for p := 0; p < 2; p++ {
 		nameA, nameB := fmt.Sprintf("c01-%d-%d-A", ci, p), fmt.Sprintf("c01-%d-%d-B", ci, p)
-		pair, cliConn, srvConn := ServeScriptPair(w.srv, w.cli, nameA, nameB, pf...)
+		pair, cliConn, srvConn := w.servePair(nameA, nameB, pf)
 		if pair.SrvSess == nil || pair.CliSess == nil {
 			statFail(st, -1, "call-failed", "could not establish session pair for "+spec.String(), spec.String())
 			return nil
@@ -385,8 +396,15 @@ func (w *world) expected(tag string) (args []byte, meta []kv) {
 		name := fmt.Sprintf("t%d", i)
 		meta = append(meta, kv{[]byte(name), w.region(tag, name)})
 	}
+	if w.refused(tag) {
+		meta = append(meta, kv{[]byte("refuse"), []byte("1")})
+	}
 	return
 }
+
+// refused: about every tenth operation asks its handler for an error status instead of a
+// result (the marker travels in the metadata, so handler and model need no side channel).
+func (w *world) refused(tag string) bool { return w.hash(tag, "#refuse")%10 == 0 }
 
 // wireBody renders decoded argument / result bytes as they travel on the wire.
 func (w *world) wireBody(decoded []byte) []byte {
@@ -490,10 +508,10 @@ func midView(rec *seenRec, ctx inCtx, copyMeta func() *utils.Args, peekMeta func
 
 // callCommon is the body of every CALL handler. get() yields the handler's context each
 // time it is used: for a struct controller that is the embedded field, read afresh.
-func callCommon(route int, get func() erpc.CallCtx, arg func() []byte) {
+func callCommon(route int, get func() erpc.CallCtx, arg func() []byte) *erpc.Status {
 	w, rec := onHandle(get(), 1, arg())
 	if rec == nil {
-		return
+		return nil
 	}
 	// reply metadata written BEFORE the yield, from what this handler saw on entry
 	get().SetMeta("rtag", string(peek(rec.v1.meta, "tag")))
@@ -503,17 +521,26 @@ func callCommon(route int, get func() erpc.CallCtx, arg func() []byte) {
 	c := get()
 	midView(rec, c, c.CopyMeta, c.PeekMeta, arg())
 	c.SetMeta("r0", string(reOf(c.PeekMeta("t0"))))
+	if len(c.PeekMeta("refuse")) > 0 {
+		// the handler REFUSES this call: error status, no result
+		return erpc.NewStatus(refuseCode, "refused:"+string(c.PeekMeta("tag")))
+	}
+	return nil
 }
 
 // CB is the CALL handler for the []byte body kind.
 func CB(ctx erpc.CallCtx, arg *[]byte) ([]byte, *erpc.Status) {
-	callCommon(0, func() erpc.CallCtx { return ctx }, func() []byte { return *arg })
+	if st := callCommon(0, func() erpc.CallCtx { return ctx }, func() []byte { return *arg }); st != nil {
+		return nil, st
+	}
 	return reOf(*arg), nil
 }
 
 // CS is the CALL handler for the string body kinds.
 func CS(ctx erpc.CallCtx, arg *string) (string, *erpc.Status) {
-	callCommon(1, func() erpc.CallCtx { return ctx }, func() []byte { return []byte(*arg) })
+	if st := callCommon(1, func() erpc.CallCtx { return ctx }, func() []byte { return []byte(*arg) }); st != nil {
+		return "", st
+	}
 	return string(reOf([]byte(*arg))), nil
 }
 
@@ -522,12 +549,16 @@ func CS(ctx erpc.CallCtx, arg *string) (string, *erpc.Status) {
 type Ctl struct{ erpc.CallCtx }
 
 func (c *Ctl) B(arg *[]byte) ([]byte, *erpc.Status) {
-	callCommon(2, func() erpc.CallCtx { return c.CallCtx }, func() []byte { return *arg })
+	if st := callCommon(2, func() erpc.CallCtx { return c.CallCtx }, func() []byte { return *arg }); st != nil {
+		return nil, st
+	}
 	return reOf(*arg), nil
 }
 
 func (c *Ctl) S(arg *string) (string, *erpc.Status) {
-	callCommon(3, func() erpc.CallCtx { return c.CallCtx }, func() []byte { return []byte(*arg) })
+	if st := callCommon(3, func() erpc.CallCtx { return c.CallCtx }, func() []byte { return []byte(*arg) }); st != nil {
+		return "", st
+	}
 	return string(reOf([]byte(*arg))), nil
 }
 
@@ -612,7 +643,9 @@ type worker struct {
 	ep   *endpoint
 	gor  int
 	rng  *rand.Rand
-	next int // index of the next operation of this goroutine
+	next int    // index of the next operation of this goroutine
+	resB []byte // reused result variables of the goroutine's synchronous calls
+	resS string
 }
 
 type pendingAsync struct {
@@ -633,6 +666,8 @@ func (wk *worker) runEpoch(nops int) {
 		wk.next++
 		op := &opRec{tag: tag, epoch: int(atomic.LoadInt32(&w.epoch))}
 		switch r := wk.rng.Intn(100); {
+		case r < 8:
+			op.kind = kRawPush
 		case r < 25:
 			op.kind = kPush
 		case r < 42:
@@ -641,8 +676,9 @@ func (wk *worker) runEpoch(nops int) {
 			op.kind = kCall
 		}
 		op.args, op.meta = w.expected(tag)
+		op.refuse = w.refused(tag) && !isPush(op.kind)
 		via := int(w.hash(tag, "#route") % 2) // function handler or struct controller
-		if op.kind == kPush {
+		if isPush(op.kind) {
 			op.path = w.pushPaths[via]
 		} else {
 			op.path = w.callPaths[via]
@@ -663,10 +699,19 @@ func (wk *worker) runEpoch(nops int) {
 		} else {
 			argVal, res = string(op.args), new(string)
 		}
+		if op.kind == kCall {
+			// synchronous calls of one goroutine REUSE one result variable: a call that must not
+			// deliver a result (refused) leaves the previous call's reply in it
+			if w.spec.body == "bytes" {
+				res = &wk.resB
+			} else {
+				res = &wk.resS
+			}
+		}
 		// registered before anything is sent: the receiver may run first
 		ep.mu.Lock()
 		ep.issued[tag] = op
-		if op.kind == kPush {
+		if isPush(op.kind) {
 			ep.pushes = append(ep.pushes, op)
 		} else {
 			op.idx = ep.nextIdx
@@ -681,8 +726,13 @@ func (wk *worker) runEpoch(nops int) {
 		w.count("op:" + kindName[op.kind])
 		w.countLens(op)
 		switch op.kind {
-		case kPush:
-			stat := ep.sess.Push(op.path, argVal, settings...)
+		case kPush, kRawPush:
+			var stat *erpc.Status
+			if op.kind == kRawPush {
+				stat = ep.sess.(erpc.PreSession).RawPush(op.path, argVal, settings...)
+			} else {
+				stat = ep.sess.Push(op.path, argVal, settings...)
+			}
 			atomic.AddInt64(&w.evals, 1)
 			if !stat.OK() {
 				if !w.isAborted() {
@@ -729,8 +779,9 @@ func (w *world) complete(ep *endpoint, op *opRec, cmd erpc.CallCmd, res interfac
 		op.hasReply = true
 		op.rmeta = metaOf(im.VisitAll)
 	}
+	op.msg = stat.Msg()
 	if stat.OK() {
-		op.wire = w.wireBody(body)
+		op.wire = append([]byte(nil), w.wireBody(body)...)
 	}
 	human := func() string {
 		return fmt.Sprintf("%s %s tag=%s seq=%d args=%q meta=%s => code=%d result=%q rmeta=%s", w.spec, kindName[op.kind], op.tag, op.seq,
@@ -746,9 +797,29 @@ func (w *world) complete(ep *endpoint, op *opRec, cmd erpc.CallCmd, res interfac
 		w.fail("seq-mismatch", fmt.Sprintf("calls %s and %s of endpoint %s both carry seq %d", other, op.tag, ep.name, op.seq), human())
 	}
 	w.checkSent(op)
+	wantMeta := []kv{{[]byte("rtag"), []byte(op.tag)}, {[]byte("r0"), reOf(op.meta[1].v)}}
+	if op.refuse {
+		// the handler refused: the call must complete with exactly that refusal, never OK
+		switch {
+		case stat.OK():
+			w.fail("result-foreign", fmt.Sprintf("call %s, which its handler REFUSED, completed with an OK status and result %q (the result variable still holds what an earlier call left there)", op.tag, clip(string(body), 160)), human())
+		case w.isAborted():
+		case stat.Code() != refuseCode || stat.Msg() != "refused:"+op.tag:
+			w.fail("result-foreign", fmt.Sprintf("refused call %s completed with status %s, which is not its own handler's refusal", op.tag, stat.String()), human())
+		case !kvEqual(op.rmeta, wantMeta):
+			w.fail("result-foreign", fmt.Sprintf("reply metadata of refused call %s: got %s want %s", op.tag, kvString(op.rmeta), kvString(wantMeta)), human())
+		}
+		w.count("op:refused")
+		op.done = true
+		return
+	}
 	if !stat.OK() {
 		if !w.isAborted() {
-			w.fail("call-failed", fmt.Sprintf("call %s completed with status %s", op.tag, stat.String()), human())
+			key := "call-failed"
+			if stat.Code() == refuseCode {
+				key = "result-foreign" // somebody else's refusal
+			}
+			w.fail(key, fmt.Sprintf("call %s completed with status %s", op.tag, stat.String()), human())
 		}
 		op.done = true
 		return
@@ -757,7 +828,6 @@ func (w *world) complete(ep *endpoint, op *opRec, cmd erpc.CallCmd, res interfac
 	if !bytes.Equal(body, want) {
 		w.fail("result-foreign", fmt.Sprintf("result body of %s is not the transform of its own args: got %q want %q", op.tag, clip(string(body), 200), clip(string(want), 200)), human())
 	}
-	wantMeta := []kv{{[]byte("rtag"), []byte(op.tag)}, {[]byte("r0"), reOf(op.meta[1].v)}}
 	if !kvEqual(op.rmeta, wantMeta) {
 		w.fail("result-foreign", fmt.Sprintf("reply metadata of %s: got %s want %s", op.tag, kvString(op.rmeta), kvString(wantMeta)), human())
 	}
